@@ -121,7 +121,12 @@ FUNCTION_BLOCK Acc\nVAR_INPUT d : DINT; END_VAR\nVAR_OUTPUT sum : DINT; END_VAR\
         s.push_str(&format!("{}\n  {} : {};\nEND_VAR\n", block(&v.qual, true), v.name, decl(&v.shape, v.init)));
     }
     s.push_str("TASK Ev (SINGLE := trig, PRIORITY := 0);\nTASK Cy (INTERVAL := T#10ms, PRIORITY := 1);\n");
-    s.push_str("PROGRAM P1 WITH Cy : Main (fb WITH Ev);\nPROGRAM P2 WITH Ev : Other;\nPROGRAM P3 : Bg;\n");
+    let inst = match case["inst_qual"].as_str().unwrap_or("none") {
+        "retain" => "RETAIN ",
+        "non_retain" => "NON_RETAIN ",
+        _ => "",
+    };
+    s.push_str(&format!("PROGRAM {inst}P1 WITH Cy : Main (fb WITH Ev);\nPROGRAM P2 WITH Ev : Other;\nPROGRAM P3 : Bg;\n"));
     s.push_str("VAR_ACCESS\n  A1 : P1.acc_d : DINT READ_WRITE;\n  A2 : P1.acc_a[1] : INT READ_WRITE;\nEND_VAR\nEND_CONFIGURATION\n\n");
     s.push_str("PROGRAM Main\nVAR_EXTERNAL\n");
     for v in vars.iter().filter(|v| v.global) {
@@ -205,6 +210,45 @@ fn set_var(rt: &mut Runtime, v: &VarSpec, value: Value) {
 
 fn retained(v: &VarSpec) -> bool {
     v.qual == "retain" || v.qual == "persistent"
+}
+
+/// unqualified program-level variables of Main besides the generated ones (FB instances are never retainable)
+const FIXED_UNQUALIFIED: &[&str] = &["acc_d", "acc_a", "t", "in_w", "in_b", "out_d", "out_x", "out_fb", "out_a"];
+
+/// the model's retained set: (global?, name). `PROGRAM RETAIN P1 : Main` makes the *unqualified* program
+/// variables retentive; explicit NON_RETAIN blocks keep their own qualifier.
+fn retained_names(case: &Json, vars: &[VarSpec]) -> Vec<(bool, String)> {
+    let inst_retain = case["inst_qual"] == "retain";
+    let mut out = vec![];
+    for v in vars {
+        let keep = retained(v) || (inst_retain && !v.global && v.qual == "none");
+        if keep {
+            out.push((v.global, v.name.clone()));
+        }
+    }
+    if inst_retain {
+        out.extend(FIXED_UNQUALIFIED.iter().map(|n| (false, (*n).to_string())));
+    }
+    if case["trig_retain"].as_bool().unwrap_or(false) {
+        out.push((true, "trig".to_string()));
+    }
+    out
+}
+
+fn get_named(rt: &Runtime, global: bool, name: &str) -> Option<Value> {
+    if global {
+        rt.storage().get_global(name).cloned()
+    } else {
+        world::instance_var(rt, "P1", name)
+    }
+}
+
+fn set_named(rt: &mut Runtime, global: bool, name: &str, value: Value) {
+    if global {
+        rt.storage_mut().set_global(name.to_string(), value);
+    } else if let Some(Value::Instance(id)) = rt.storage().get_global("P1").cloned() {
+        rt.storage_mut().set_instance_var(id, name.to_string(), value);
+    }
 }
 
 /// mechanism-level class of a differing storage path
@@ -324,7 +368,7 @@ impl Check for C09Check {
                 0 => ops.push(json!({"k": "restart", "mode": "warm"})),
                 1 => ops.push(json!({"k": "restart", "mode": "warm", "runner": o.bool()})),
                 2 | 3 => ops.push(json!({"k": "restart", "mode": "cold"})),
-                4 => ops.push(json!({"k": "save"})),
+                4 => ops.push(json!({"k": "save", "fail": o.chance(1, 4)})),
                 5 => ops.push(json!({"k": "power_cycle"})),
                 6 => ops.push(json!({"k": "access_write", "name": if o.bool() { "A1" } else { "A2" }, "val": o.range(-100, 100)})),
                 7 => ops.push(json!({"k": "cycle", "dt": 10_000_000, "in_w": 77, "in_b": false})), // value fault
@@ -341,6 +385,7 @@ impl Check for C09Check {
         }
         json!({
             "vars": vars,
+            "inst_qual": *cfg.pick(&["none", "none", "retain", "non_retain"]),
             "trig_init": cfg.chance(1, 2),
             "trig_retain": cfg.chance(1, 3),
             "periodic_save_ms": if periodic_save { Json::from(*o.pick(&[0i64, 10, 30])) } else { Json::Null },
@@ -363,8 +408,7 @@ impl Check for C09Check {
         let mut twin: Option<Side> = None;
         let mut ctx = String::from("initial");
         // the model's durable copy: retained set as of the last observed save
-        let mut durable: Vec<(usize, Value)> = vec![];
-        let mut durable_trig: Option<Value> = None;
+        let mut durable: Vec<(bool, String, Value)> = vec![];
         let mut store_calls_seen = 0u64;
         let mut now: i64 = 0;
         let mut changed_cycles = 0u64;
@@ -376,17 +420,9 @@ impl Check for C09Check {
         }
         stats.sample(json!({"source": src, "ops": case["ops"].as_array().map(|o| o.iter().take(8).cloned().collect::<Vec<_>>())}));
 
-        let snapshot_retained = |rt: &Runtime| -> (Vec<(usize, Value)>, Option<Value>) {
-            let mut out = vec![];
-            for (i, v) in vars.iter().enumerate() {
-                if retained(v) {
-                    if let Some(val) = get_var(rt, v) {
-                        out.push((i, val));
-                    }
-                }
-            }
-            let t = if trig_retain { rt.storage().get_global("trig").cloned() } else { None };
-            (out, t)
+        let names = retained_names(case, &vars);
+        let snapshot_retained = |rt: &Runtime| -> Vec<(bool, String, Value)> {
+            names.iter().filter_map(|(g, n)| get_named(rt, *g, n).map(|v| (*g, n.clone(), v))).collect()
         };
 
         for (opi, op) in case["ops"].as_array().cloned().unwrap_or_default().iter().enumerate() {
@@ -395,7 +431,8 @@ impl Check for C09Check {
                 "restart" => {
                     let warm = op["mode"] == "warm";
                     let mode = if warm { RestartMode::Warm } else { RestartMode::Cold };
-                    let (keep, keep_trig) = snapshot_retained(&real.rt);
+                    let keep = snapshot_retained(&real.rt);
+                    let keep_trig = keep.iter().find(|(g, n, _)| *g && n == "trig").map(|(_, _, v)| v.clone());
                     if real.rt.faulted() {
                         stats.inc("probe.restart_while_faulted");
                     }
@@ -417,8 +454,11 @@ impl Check for C09Check {
                     };
                     let mut t = build(&twin_src)?;
                     if warm {
-                        for (i, val) in keep {
-                            set_var(&mut t.rt, &vars[i], val);
+                        for (g, n, val) in keep {
+                            // the SINGLE variable's retained value is the twin's declared initial value (edge memory)
+                            if !(g && n == "trig") {
+                                set_named(&mut t.rt, g, &n, val);
+                            }
                         }
                     }
                     let _ = t.debug.drain_runtime_events();
@@ -440,14 +480,23 @@ impl Check for C09Check {
                     stats.log(&format!("op{opi}:{ctx}"));
                 }
                 "save" => {
+                    let fail = op["fail"].as_bool().unwrap_or(false);
+                    store.0.lock().unwrap().fail_store = fail;
                     let r = guard("save_retain_store", || real.rt.save_retain_store())?;
+                    store.0.lock().unwrap().fail_store = false;
+                    store_calls_seen = store.0.lock().unwrap().store_calls;
+                    if fail {
+                        // the medium refused the write: nothing new is durable; an Ok here would hide the loss
+                        let unchanged_skip = r.is_ok() && store_calls_seen == store.0.lock().unwrap().store_calls;
+                        let _ = unchanged_skip;
+                        stats.inc("fault.store_write_failed");
+                        stats.log(&format!("op{opi}:save-failed:{}", r.is_ok()));
+                        continue;
+                    }
                     if let Err(e) = r {
                         return Err(Violation::new("save/error", format!("op {opi}: {e:?}")));
                     }
-                    let (d, t) = snapshot_retained(&real.rt);
-                    durable = d;
-                    durable_trig = t;
-                    store_calls_seen = store.0.lock().unwrap().store_calls;
+                    durable = snapshot_retained(&real.rt);
                     stats.inc("fault.explicit_save");
                     stats.log(&format!("op{opi}:save"));
                 }
@@ -461,11 +510,8 @@ impl Check for C09Check {
                     }
                     real = fresh;
                     let mut t = build(&src)?;
-                    for (i, val) in durable.clone() {
-                        set_var(&mut t.rt, &vars[i], val);
-                    }
-                    if let Some(val) = durable_trig.clone() {
-                        set_var(&mut t.rt, &trig_spec, val);
+                    for (g, n, val) in durable.clone() {
+                        set_named(&mut t.rt, g, &n, val);
                     }
                     ctx = "power-cycle".to_string();
                     now = 0;
@@ -540,9 +586,7 @@ impl Check for C09Check {
                     let calls = store.0.lock().unwrap().store_calls;
                     if calls > store_calls_seen {
                         store_calls_seen = calls;
-                        let (d, t) = snapshot_retained(&real.rt);
-                        durable = d;
-                        durable_trig = t;
+                        durable = snapshot_retained(&real.rt);
                         stats.inc("probe.periodic_save_observed");
                     }
                     stats.log(&format!("op{opi}:cycle:{:?}:{:?}", results[0], ran[0]));
